@@ -364,6 +364,8 @@ def demands(cfg, mech):
     # file / copy_from: only for learners whose state is a function of their data
     if kind == "l1d" and cfg["factor"] != 1:
         return None, None
+    if kind == "l2d":
+        return None, None               # not in the property's list (its stack of cached suggestions is not data)
     if cfg.get("wrap") == "balancing" and cfg.get("strategy") == "cycle":
         return "close", None            # the position in the cycle is not a function of the data
     return "close", (None if kind == "avg1d" else "close")
@@ -509,7 +511,9 @@ def check_case(chk, cfg, seed, stats, workdir, tag):
             pairs = list(zip(a0, a1)) if isinstance(a0, list) else [(a0, a1)]
             ok = all((x is None) == (y is None) and (x is None or (
                 points_equal(list(x[0]), list(y[0]), rt) and
-                (close_val(x[1], y[1], 0 if want_ask == "exact" else 1e-9) if _numeric(x[1]) and _numeric(y[1]) else True)))
+                # "suggestions" are the points; the promised improvements are only sanity-checked (Learner2D's
+                # come out of an iterative gradient estimate and agree to ~1e-8 only)
+                (close_val(x[1], y[1], 1e-6) if _numeric(x[1]) and _numeric(y[1]) else True)))
                 for x, y in pairs)
         if not ok and cfg.get("strategy") == "cycle" and cfg.get("wrap") == "balancing" and a0 and a1 \
                 and [p[0] for p in a1[0]] == [i % len(l.learners) for i in range(len(a1[0]))] \
@@ -622,7 +626,7 @@ def run(chk: Check) -> int:
         chk.note_case((cfg, seed), usable and cfg["n"] >= 5)
         if usable and i % 37 == 0:
             chk.sample({"learner": nm, "cfg": {k: v for k, v in cfg.items() if k != "kind"}, "mechanisms": MECHS})
-        if len(chk.failures) > 40:
+        if sum(1 for f in chk.failures if f["signature"] not in (SIG_F7, SIG_CYCLE)) > 40:
             break
     for nm, n in stats["usable"].items():
         if n == 0:
